@@ -1,6 +1,7 @@
 package dbp
 
 import (
+	"sort"
 	"bytes"
 	"fmt"
 	"os"
@@ -33,7 +34,9 @@ type ConcOp struct {
 	// Whether the ACL refuses it depends on (rules, action, name) only, never on the state, so the
 	// runner works it out beforehand and stores it in Denied for the sequential model.
 	Restricted bool `json:"restricted,omitempty"`
-	Denied     bool `json:"-"`
+	// Second: ... by the SECOND restricted caller (another node, LinCase.Rules2) instead of the first
+	Second bool `json:"second,omitempty"`
+	Denied bool `json:"-"`
 }
 
 type LinCase struct {
@@ -43,6 +46,7 @@ type LinCase struct {
 	AuditYield  int          `json:"audit_yield"`             // the audit device yields the processor this many times per write/sync (a slow device)
 	Rules       []model.Rule `json:"rules,omitempty"`         // grant of the restricted caller
 	ReadDelayUs int          `json:"read_delay_us,omitempty"` // the audit device takes this much longer over records of read accesses
+	Rules2      []model.Rule `json:"rules2,omitempty"`        // grant of a second restricted caller (nil = there is none)
 }
 
 type linOut struct {
@@ -52,10 +56,16 @@ type linOut struct {
 	Dump  string
 }
 
+// renderInfos renders a listing canonically (entries by name, versions ascending): the order in
+// which a listing comes back is not fixed by any property.
 func renderInfos(l []model.InfoM) string {
+	l = append([]model.InfoM{}, l...)
+	sort.SliceStable(l, func(i, j int) bool { return l[i].Name < l[j].Name })
 	var sb strings.Builder
 	for _, in := range l {
-		fmt.Fprintf(&sb, "%q[a%d %v]", in.Name, in.Active, in.Versions)
+		vs := append([]uint32{}, in.Versions...)
+		sort.Slice(vs, func(i, j int) bool { return vs[i] < vs[j] })
+		fmt.Fprintf(&sb, "%q[a%d %v]", in.Name, in.Active, vs)
 	}
 	return sb.String()
 }
@@ -170,11 +180,19 @@ func runC14(t *testing.T, c LinCase) (*h.Violation, h.Info) {
 		return h.V("harness", "open: %v", err), info
 	}
 	su := dbx.Super()
-	low := dbx.Restricted(1, c.Rules)
+	low, low2 := dbx.Restricted(1, c.Rules), dbx.Restricted(3, c.Rules2)
 	who := func(o *ConcOp) dbx.CallerM {
 		if !o.Restricted || o.Kind == "list" || o.Kind == "final" {
 			o.Restricted = false
 			return su
+		}
+		if o.Second && c.Rules2 != nil {
+			o.Denied = !model.Allow(c.Rules2, dbx.ActionOf(o.Kind), o.Name)
+			if o.Denied {
+				info.Class("call-refused-by-the-acl")
+			}
+			info.Class("two-restricted-callers-with-different-grants")
+			return low2
 		}
 		o.Denied = !model.Allow(c.Rules, dbx.ActionOf(o.Kind), o.Name)
 		if o.Denied {
@@ -187,7 +205,7 @@ func runC14(t *testing.T, c LinCase) (*h.Violation, h.Info) {
 		info.Class("path-http")
 		// ONE server (one set of handlers) serves all clients at once, as in production;
 		// every client gets its own recorder of replies
-		shared, err := dbx.NewHTTP(d, []dbx.CallerM{su, low})
+		shared, err := dbx.NewHTTP(d, []dbx.CallerM{su, low, low2})
 		if err != nil {
 			return h.V("harness", "server: %v", err), info
 		}
@@ -309,6 +327,9 @@ func genLinCase(rt *rapid.T) LinCase {
 	withLow := rapid.IntRange(0, 2).Draw(rt, "with-restricted") == 0
 	if withLow {
 		c.Rules = genLinRules(rt)
+		if rapid.Bool().Draw(rt, "with-second") {
+			c.Rules2 = genLinRules(rt)
+		}
 	}
 	for i := 0; i < nc; i++ {
 		c.Progs = append(c.Progs, rapid.SliceOfN(rapid.Custom(func(rt *rapid.T) ConcOp {
@@ -319,6 +340,7 @@ func genLinCase(rt *rapid.T) LinCase {
 				Ver:        uint32(rapid.IntRange(1, 4).Draw(rt, "ver")),
 				Yield:      rapid.IntRange(0, 3).Draw(rt, "yield"),
 				Restricted: withLow && rapid.IntRange(0, 2).Draw(rt, "restricted") > 0,
+				Second:     i%2 == 1,
 			}
 		}), 2, 5).Draw(rt, "prog"))
 	}
@@ -365,6 +387,14 @@ var c09conc = &h.Campaign[LinCase]{
 	Gen: func(rt *rapid.T) LinCase {
 		c := LinCase{HTTP: rapid.IntRange(0, 1).Draw(rt, "http") == 0, AuditYield: rapid.SampledFrom([]int{0, 1, 3}).Draw(rt, "audityield")}
 		c.Progs = append(c.Progs, []ConcOp{{Kind: "put", Name: "a", Val: "x"}, {Kind: "put", Name: "a", Val: "y"}, {Kind: "put", Name: "a", Val: "z"}})
+		// in half of the cases some of the polling clients are other nodes: one that may get the secret
+		// and one that may not, asking the same question at the same time over a slow audit device
+		withNodes := rapid.Bool().Draw(rt, "with-nodes")
+		if withNodes {
+			c.Rules = []model.Rule{{Action: []string{"get"}, Secret: []string{rapid.SampledFrom([]string{"a", "*"}).Draw(rt, "granted")}}}
+			c.Rules2 = []model.Rule{{Action: []string{rapid.SampledFrom([]string{"info", "put", "get"}).Draw(rt, "other-action")}, Secret: []string{rapid.SampledFrom([]string{"b", "a*b", "a"}).Draw(rt, "other-pattern")}}}
+			c.ReadDelayUs = rapid.SampledFrom([]int{100, 400, 1500}).Draw(rt, "readdelay")
+		}
 		nc := rapid.IntRange(2, 4).Draw(rt, "clients")
 		for i := 0; i < nc; i++ {
 			c.Progs = append(c.Progs, rapid.SliceOfN(rapid.Custom(func(rt *rapid.T) ConcOp {
@@ -374,6 +404,8 @@ var c09conc = &h.Campaign[LinCase]{
 					Val:   rapid.SampledFrom([]string{"x", "w"}).Draw(rt, "val"),
 					Ver:   uint32(rapid.IntRange(1, 4).Draw(rt, "ver")),
 					Yield: rapid.IntRange(0, 3).Draw(rt, "yield"),
+					Restricted: withNodes && i > 0,
+					Second:     i%2 == 0,
 				}
 			}), 2, 6).Draw(rt, "prog"))
 		}
@@ -393,6 +425,9 @@ var c01conc = &h.Campaign[LinCase]{
 	Quick: 500, Thorough: 60000,
 	Gen: func(rt *rapid.T) LinCase {
 		c := LinCase{HTTP: rapid.IntRange(0, 2).Draw(rt, "http") == 0, AuditYield: rapid.SampledFrom([]int{1, 3, 8}).Draw(rt, "audityield"), Rules: genLinRules(rt)}
+		if rapid.Bool().Draw(rt, "with-second") {
+			c.Rules2 = genLinRules(rt)
+		}
 		c.Progs = append(c.Progs, []ConcOp{{Kind: "put", Name: "a", Val: "x"}, {Kind: "put", Name: "b", Val: "y"}})
 		nc := rapid.IntRange(2, 4).Draw(rt, "clients")
 		for i := 0; i < nc; i++ {
@@ -404,6 +439,7 @@ var c01conc = &h.Campaign[LinCase]{
 					Ver:        uint32(rapid.IntRange(1, 3).Draw(rt, "ver")),
 					Yield:      rapid.IntRange(0, 3).Draw(rt, "yield"),
 					Restricted: i > 0,
+					Second:     i%2 == 0,
 				}
 			}), 2, 6).Draw(rt, "prog"))
 		}
